@@ -44,15 +44,20 @@ def refinement(draw, U, p, max_nodes=3, max_t=2):
 @st.composite
 def cases(draw):
     rational = draw(st.integers(0, 3)) == 0
-    c = draw(gen.curves(0, 3, 3, rational=rational, nums=("frac",)))
     variant = draw(st.sampled_from(
         ["same", "same", "perturbed", "perturbed", "interval", "weights-const", "weights-scaled",
          "weight-changed", "noncurve"]))
+    heavy = rational or variant.startswith("weight")
+    # rational comparison multiplies numerators and denominators exactly: keep those cases small
+    if heavy:
+        c = draw(gen.curves(0, 2, 2, rational=rational, nums=("frac",), dim=draw(st.sampled_from([0, 0, 2]))))
+    else:
+        c = draw(gen.curves(0, 3, 3, rational=rational, nums=("frac",)))
     n = len(c["P"])
     return {
         "A": c, "variant": variant,
-        "refB": draw(refinement(c["U"], c["p"])),
-        "refA": draw(st.one_of(st.none(), st.none(), refinement(c["U"], c["p"], 2, 1))),
+        "refB": draw(refinement(c["U"], c["p"], 2, 1) if heavy else refinement(c["U"], c["p"])),
+        "refA": draw(st.one_of(st.none(), st.none(), st.none() if heavy else refinement(c["U"], c["p"], 2, 1))),
         "index": draw(st.integers(0, n - 1)),
         "delta": draw(st.sampled_from([F(1, 10 ** 12), F(1, 1000), F(1), F(-1, 100)])),
         "factor": draw(st.sampled_from([F(2), F(1, 3), F(7, 2)])),
